@@ -2791,11 +2791,16 @@ class EquilibriumRegion(PsiContour):
                 self.nonorthogonal_options.nonorthogonal_spacing_method
                 == "poloidal_orthogonal_combined"
             ):
+                # Use the spacing parameters of the orthogonal grid when gridding the
+                # separatrix contour (as for the "combined" method below), so that the
+                # grid the contours are constructed from does not depend on the
+                # nonorthogonal_* settings, which may be changed later by
+                # Mesh.redistributePoints()
                 return self.combineSfuncs(
                     self,
                     None,
-                    spacing_lower=spacing_lower,
-                    spacing_upper=spacing_upper,
+                    spacing_lower=spacings["nonorthogonal_orthogonal_d_lower"],
+                    spacing_upper=spacings["nonorthogonal_orthogonal_d_upper"],
                 )
             elif (
                 self.nonorthogonal_options.nonorthogonal_spacing_method
